@@ -325,6 +325,15 @@ func writeProbe(root string, batch []XDialect, pkgDirs []string) {
 		b.WriteString("\t\tr[\"Consts\"] = consts\n\t\tenums := map[string]interface{}{}\n\t\trejects := map[string][]string{}\n")
 		for _, n := range names {
 			vals := enumProbeValues(entries[n], bitmask[n])
+		extra:
+			for _, x := range d.ExtraProbe[n] {
+				for _, v := range vals {
+					if v == x {
+						continue extra
+					}
+				}
+				vals = append(vals, x)
+			}
 			var vs []string
 			for _, v := range vals {
 				vs = append(vs, fmt.Sprint(v))
